@@ -42,9 +42,9 @@ def parseFNode (s : String) : Option FNode :=
 
 def parseFn (fs : List String) : Option Fn :=
   match fs with
-  | [n, d, fo, os, ns] => do
+  | [n, d, ov, fo, os, ns] => do
     let nodes ← (splitL ns "~").mapM parseFNode
-    pure ⟨n, unAt d, names fo, nodes, names os⟩
+    pure ⟨n, unAt d, unAt ov, names fo, nodes, names os⟩
   | _ => none
 
 def parseItem (s : String) : Option Item :=
@@ -78,7 +78,7 @@ def showIn (st : St) : Option Nat → String
   | none => "~"
 
 def showNode (st : St) (n : Node) : String :=
-  "|".intercalate [n.name, n.domain, n.op, ",".intercalate (n.ins.map (showIn st)),
+  "|".intercalate [n.name, n.domain, n.op ++ (if n.overload = "" then "" else ":" ++ n.overload), ",".intercalate (n.ins.map (showIn st)),
     ",".intercalate (n.outs.map (nameOf st)), ",".intercalate (n.graphs.map toString)]
 
 def showFrame (st : St) (f : Frame) : String :=
